@@ -126,8 +126,11 @@ class Ctx:
         self.notes.append(text)
 
     def check_floors(self) -> None:
+        failing = {f.rule for f in self.findings}
         for rule, n in self.floors.items():
             got = self.counts.get(rule, 0)
+            if rule in failing:
+                continue  # a reported violation of the rule explains missing follow-up instances
             if got < n:
                 raise AnalysisError(
                     f"rule {rule} evaluated {got} instance(s), fewer than the {n} confirmed by hand "
